@@ -142,8 +142,10 @@ package crypto
 //@   ensures [C03.cbc.dnonce] (len(key) == kcAESKeySize(algorithm) && len(iv) != 16) ==> (err == ErrInvalidNonce && plaintext == nil)
 //@   ensures [C03.cbc.dctlen] (len(key) == kcAESKeySize(algorithm) && len(iv) == 16 && len(ciphertext) % 16 != 0) ==> (err == ErrInvalidCiphertextLength && plaintext == nil)
 //@   ensures [C03.cbc.dok.nopad] (len(key) == kcAESKeySize(algorithm) && len(iv) == 16 && len(ciphertext) % 16 == 0 && kcCBCNoPad(algorithm)) ==> (err == nil && fresh(plaintext) && len(plaintext) == len(ciphertext))
-//@   ensures [C03.cbc.dok.pad] (len(key) == kcAESKeySize(algorithm) && len(iv) == 16 && len(ciphertext) % 16 == 0 && kcCBCPad(algorithm)) ==> (err == nil || err == padding.ErrInvalidPKCS7Padding)
-//@   ensures [C03.cbc.dok.padlen] (err == nil && kcCBCPad(algorithm)) ==> (len(plaintext) <= len(ciphertext) && (len(ciphertext) > 0 ==> len(plaintext) < len(ciphertext)))
+// no PKCS#7-padded encryption is empty (padding always adds 1..16 bytes): the empty ciphertext has the wrong size
+//@   ensures [C03.cbc.dctlen.empty] (len(key) == kcAESKeySize(algorithm) && len(iv) == 16 && kcCBCPad(algorithm) && len(ciphertext) == 0) ==> (err == ErrInvalidCiphertextLength && plaintext == nil)
+//@   ensures [C03.cbc.dok.pad] (len(key) == kcAESKeySize(algorithm) && len(iv) == 16 && len(ciphertext) % 16 == 0 && len(ciphertext) > 0 && kcCBCPad(algorithm)) ==> (err == nil || err == padding.ErrInvalidPKCS7Padding)
+//@   ensures [C03.cbc.dok.padlen] (err == nil && kcCBCPad(algorithm)) ==> (len(ciphertext) >= 16 && len(plaintext) < len(ciphertext))
 //@   ensures [C03.cbc.dnoout] err != nil ==> plaintext == nil
 
 // ---- ChaCha20-Poly1305 (encrypt) ----
@@ -227,7 +229,8 @@ package crypto
 //@   modifies nothing
 //@   ensures [C03.kw.key] len(key) != kcAESKeySize(algorithm) ==> (err == ErrKeyTypeMismatch && ciphertext == nil)
 //@   ensures [C03.kw.ok] (err == nil) ==> (fresh(ciphertext) && len(ciphertext) == len(plaintext) + 8)
-//@   ensures [C03.kw.len] (len(key) == kcAESKeySize(algorithm) && len(plaintext) % 8 != 0) ==> err != nil
+// a plaintext (key data) of the wrong size -- not n >= 2 blocks of 64 bits, RFC 3394 -- yields the package's sentinel
+//@   ensures [C03.kw.len] (len(key) == kcAESKeySize(algorithm) && (len(plaintext) % 8 != 0 || len(plaintext) < 16)) ==> err == ErrInvalidPlaintextLength
 //@   ensures [C03.kw.noout] err != nil ==> ciphertext == nil
 //@   at call Wrap#0 assert [C03.kw.args] arg1 == plaintext
 
@@ -238,10 +241,20 @@ package crypto
 //@   ensures [C03.kw.dkey] len(key) != kcAESKeySize(algorithm) ==> (err == ErrKeyTypeMismatch && plaintext == nil)
 //@   ensures [C03.kw.dok] (err == nil) ==> (fresh(plaintext) && len(plaintext) == len(ciphertext) - 8)
 //@   ensures [C03.kw.dnoout] err != nil ==> plaintext == nil
+//@   ensures [C03.kw.dlen] (len(key) == kcAESKeySize(algorithm) && (len(ciphertext) % 8 != 0 || len(ciphertext) < 24)) ==> err == ErrInvalidCiphertextLength
 //@   at call Unwrap#0 assert [C03.kw.dargs] arg1 == ciphertext
 
 // ---- crypto.go: hash selection ----
 // crypto.Hash values: SHA1 = 3, SHA256 = 5, SHA384 = 6, SHA512 = 7.
+
+// RFC 7518 section 3.4: ES256 = P-256, ES384 = P-384, ES512 = P-521 (curvebits: libspec crypto_pkg.spec)
+//@ pure func kcECBits(a string) int = a == "ES256" ? 256 : (a == "ES384" ? 384 : (a == "ES512" ? 521 : 0))
+
+//@ func getECDSACurve
+//@   tags C03 C07 C17
+//@   modifies nothing
+//@   ensures [C03.ec.curve.map] kcSigEC(alg) ==> (result != nil && curvebits(result) == kcECBits(alg))
+//@   ensures [C03.ec.curve.other] !kcSigEC(alg) ==> result == nil
 
 //@ func getSHAHash
 //@   tags C03 C07 C17
@@ -261,6 +274,13 @@ package crypto
 //@   ensures [C03.rsa.enc15.noout] result1 != nil ==> result == nil
 //@   ensures [C03.rsa.enc15.fresh] result == nil || fresh(result)
 //@   at call EncryptPKCS1v15#0 assert [C03.rsa.enc15.args] arg2 == plaintext
+// "a plaintext of the wrong size yields the package's sentinel where one is defined": too long for the key
+//@   ghost encalled int
+//@   ghost encerr error
+//@   at before call Raw#0 ghost encalled = 0
+//@   at call EncryptPKCS1v15#0 ghost encalled = 1
+//@   at call EncryptPKCS1v15#0 ghost encerr = res1
+//@   ensures [C03.rsa.enc15.toolong] (encalled == 1 && encerr == rsa.ErrMessageTooLong) ==> (result1 == ErrInvalidPlaintextLength && result == nil)
 
 //@ func encryptPublicKeyRSAOAEP
 //@   tags C03 C07 C17
@@ -272,6 +292,12 @@ package crypto
 //@   ensures [C03.rsa.encoaep.fresh] result == nil || fresh(result)
 //@   at before call New#0 assert [C03.rsa.encoaep.hash] arg0 == hash
 //@   at call EncryptOAEP#0 assert [C03.rsa.encoaep.args] arg3 == plaintext && arg4 == label
+//@   ghost encalled int
+//@   ghost encerr error
+//@   at before call Raw#0 ghost encalled = 0
+//@   at call EncryptOAEP#0 ghost encalled = 1
+//@   at call EncryptOAEP#0 ghost encerr = res1
+//@   ensures [C03.rsa.encoaep.toolong] (encalled == 1 && encerr == rsa.ErrMessageTooLong) ==> (result1 == ErrInvalidPlaintextLength && result == nil)
 
 //@ func decryptPrivateKeyRSAPKCS1v15
 //@   tags C03 C07 C17
@@ -361,6 +387,10 @@ package crypto
 //@   ensures [C03.sig.ps.noout] result1 != nil ==> result == nil
 //@   ensures [C03.sig.ps.fresh] result == nil || fresh(result)
 //@   at call SignPSS#0 assert [C03.sig.ps.args] arg2 == hash && arg3 == digest
+// RFC 7518 section 3.5: "The size of the salt value is the same size as the hash function output" -- with nil options
+// crypto/rsa signs with the largest salt that fits, which verifiers following the RFC strictly reject
+// (rsa.PSSSaltLengthEqualsHash == -1)
+//@   at before call SignPSS#0 assert [C03.sig.ps.salt] arg4 != nil && arg4.SaltLength == -1 && (arg4.Hash == 0 || arg4.Hash == hash)
 
 //@ func signPrivateKeyECDSA
 //@   tags C03 C07 C17
@@ -370,6 +400,10 @@ package crypto
 //@   ensures [C03.sig.es.noout] result1 != nil ==> result == nil
 //@   ensures [C03.sig.es.fresh] result == nil || fresh(result)
 //@   at call SignASN1#0 assert [C03.sig.es.args] arg2 == digest
+// "a key of the wrong kind or size yields ErrKeyTypeMismatch and no output": a signature is only ever made with a key on
+// the algorithm's own curve
+//@   at before call SignASN1#0 assert [C03.sig.es.curve] kcSigEC(algorithm) ==> curvebits(arg1.Curve) == kcECBits(algorithm)
+//@   ensures [C03.sig.es.errs] result1 == nil || result1 == ErrKeyTypeMismatch || result == nil
 
 //@ func signPrivateKeyEdDSA
 //@   tags C03 C07 C17
@@ -405,7 +439,7 @@ package crypto
 //@   at call signPrivateKeyECDSA#0 ghost impl = 3
 //@   at call signPrivateKeyECDSA#0 ghost rsig = res0
 //@   at call signPrivateKeyECDSA#0 ghost rerr = res1
-//@   at call signPrivateKeyECDSA#0 assert [C03.dispatch.sign.onlyes] kcSigEC(algorithm) && arg0 == digest && arg1 == key
+//@   at call signPrivateKeyECDSA#0 assert [C03.dispatch.sign.onlyes] kcSigEC(algorithm) && arg0 == digest && arg1 == algorithm && arg2 == key
 //@   at call signPrivateKeyEdDSA#0 ghost impl = 4
 //@   at call signPrivateKeyEdDSA#0 ghost rsig = res0
 //@   at call signPrivateKeyEdDSA#0 ghost rerr = res1
@@ -448,6 +482,7 @@ package crypto
 //@   ensures [C03.ver.es.valid] result ==> result1 == nil
 //@   at call VerifyASN1#0 ghost vok = res0
 //@   at call VerifyASN1#0 assert [C03.ver.es.args] arg1 == digest && arg2 == signature
+//@   at before call VerifyASN1#0 assert [C03.ver.es.curve] kcSigEC(algorithm) ==> curvebits(arg0.Curve) == kcECBits(algorithm)
 //@   ensures [C03.ver.es.map] result1 == nil ==> result == vok
 
 //@ func verifyPublicKeyEdDSA
@@ -486,7 +521,7 @@ package crypto
 //@   at call verifyPublicKeyECDSA#0 ghost impl = 3
 //@   at call verifyPublicKeyECDSA#0 ghost rvalid = res0
 //@   at call verifyPublicKeyECDSA#0 ghost rerr = res1
-//@   at call verifyPublicKeyECDSA#0 assert [C03.dispatch.verify.onlyes] kcSigEC(algorithm) && arg0 == digest && arg1 == signature
+//@   at call verifyPublicKeyECDSA#0 assert [C03.dispatch.verify.onlyes] kcSigEC(algorithm) && arg0 == digest && arg1 == signature && arg2 == algorithm
 //@   at call verifyPublicKeyEdDSA#0 ghost impl = 4
 //@   at call verifyPublicKeyEdDSA#0 ghost rvalid = res0
 //@   at call verifyPublicKeyEdDSA#0 ghost rerr = res1
